@@ -56,8 +56,9 @@ if var == 'split' and ss.GENROU.n > 0:
     # two machines share the first static generator 0.3 / 0.7
     d = ss.GENROU.as_dict(vin=True) if False else None
     row = {k: p.v[0] for k, p in ss.GENROU.params.items() if k not in ('idx', 'name') and len(p.v) > 0}
-    row['gammap'] = 0.3; row['gammaq'] = 0.3
-    ss.GENROU.gammap.v[0] = 0.7; ss.GENROU.gammaq.v[0] = 0.7
+    # (different shares of P and of Q, each pair summing to one)
+    row['gammap'] = 0.3; row['gammaq'] = 0.6
+    ss.GENROU.gammap.v[0] = 0.7; ss.GENROU.gammaq.v[0] = 0.4
     row['Sn'] = row['Sn']
     ss.add('GENROU', row)
 elif var == 'offline' and ss.TGOV1.n > 0:
@@ -86,6 +87,23 @@ elif var == 'nan_droop':
     for tg in (ss.TG2, ss.TGOV1):
         if tg.n > 0:
             tg.R.v[0] = 0.0
+elif var == 'split_pq':
+    # every static generator already shared by two dynamic devices (of any classes): unequal P and Q shares
+    by_gen = {}
+    for mdl in ss.models.values():
+        if mdl.n and all(k in mdl.params for k in ('gen', 'gammap', 'gammaq')):
+            for i, g in enumerate(mdl.gen.v):
+                by_gen.setdefault(g, []).append((mdl, i))
+    for g, devs in by_gen.items():
+        if len(devs) == 2:
+            for (mdl, i), (gp, gq) in zip(devs, ((0.6, 0.3), (0.4, 0.7))):
+                mdl.gammap.v[i] = gp
+                mdl.gammaq.v[i] = gq
+elif var == 'zipmix':
+    # a non-default but valid conversion of the static loads for the time-domain simulation
+    c_ = ss.PQ.config
+    c_.p2p, c_.p2i, c_.p2z = 0.3, 0.4, 0.3
+    c_.q2q, c_.q2i, c_.q2z = 0.2, 0.5, 0.3
 elif var == 'corrupt' and ss.TGOV1.n > 0:
     for i in range(len(ss.TGOV1.VMAX.v)):
         ss.TGOV1.VMAX.v[i] = 0.1
@@ -151,9 +169,10 @@ def run(ctx):
         files = keep + rest[:9]
     specs = [{'file': os.path.abspath(f)} for f in files]
     base = os.path.abspath(os.path.join(root, 'kundur', 'kundur_full.xlsx'))
-    for v in ('split', 'offline', 'offline_exc', 'corrupt'):
+    for v in ('split', 'offline', 'offline_exc', 'corrupt', 'zipmix'):
         specs.append({'file': base, 'variant': v})
     specs.append({'file': os.path.abspath(os.path.join(root, 'ieee14', 'ieee14_full.xlsx')), 'variant': 'split'})
+    specs.append({'file': os.path.abspath(os.path.join(root, 'ieee14', 'ieee14_wt3n.xlsx')), 'variant': 'split_pq'})
     pjm = os.path.abspath(os.path.join(root, '5bus', 'pjm5bus.xlsx'))
     specs.append({'file': pjm, 'variant': 'unit_off'})
     specs.append({'file': pjm, 'variant': 'nan_droop'})
